@@ -14,8 +14,9 @@
    failures with their time); times are integer microseconds.  tn = (ACK_TIMEOUT us, ACK_RANDOM_FACTOR = num/den, MAX_RETRANSMIT). *)
 From Coq Require Import QArith String.
 From Verif Require Import Lib.Py Lib.Tactics Gen.c03_constants Model.C03 Model.C03const.
-From Verif Require Import Proofs.C03 Proofs.C03struct Proofs.C03hist Proofs.C03main Proofs.C03const.
+From Verif Require Import Proofs.C03 Proofs.C03struct Proofs.C03hist Proofs.C03main Proofs.C03const Proofs.C03R6 Proofs.C03R6b.
 Open Scope Z_scope.
+Definition dflt0 : tuning := {| ACK_TIMEOUT := 2000000; ARF_num := 3; ARF_den := 2; MAX_RETRANSMIT := 4 |}.
 
 (* 1. at most 1 + MAX_RETRANSMIT transmissions of a message, all of them the identical message *)
 Theorem C03_transmissions_bounded : forall mid0 draws evs t m, wf_run draws evs -> In (OSend t m) (trace_of mid0 draws evs) ->
@@ -76,6 +77,36 @@ Theorem C03_gives_up_plain : forall mid0 draws evs t m, wf_run draws evs -> no_r
     forall tf rid, ~ In (OFail tf rid NetworkError) (trace_of mid0 draws evs).
 Proof. exact gives_up_plain. Qed.
 Print Assumptions C03_gives_up_plain.
+(* 3a' (round 6). The same per remote: a NetworkError failure of request rid needs a transport error for the very remote rid was addressed
+   to (pending requests stay tied to their ERequest: outgoing_requests only shrinks); EVERY event list *)
+Theorem C03_network_error_for_remote : forall mid0 draws evs tf rid, no_refusal evs ->
+  In (OFail tf rid NetworkError) (trace_of mid0 draws evs) ->
+  exists r tn, In (ERequest rid r tn) evs /\ In (EError r) evs.
+Proof. exact network_error_for_remote. Qed.
+Print Assumptions C03_network_error_for_remote.
+(* ... so the give-up clause only needs "no transport error for the remote THIS request was addressed to" *)
+Theorem C03_gives_up_plain_remote : forall mid0 draws evs t m, wf_run draws evs -> no_refusal evs ->
+  (forall r tn, In (ERequest (m_rid m) r tn) evs -> ~ In (EError r) evs) ->
+  In (OSend t m) (trace_of mid0 draws evs) ->
+  ~ In (m_remote m, m_mid m) (recv_keys evs) -> ~ In (err_key (m_remote m)) (recv_keys evs) -> ~ In (gone_key (m_rid m)) (recv_keys evs) ->
+  exists T0 t0 n, copies (m_rid m) (trace_of mid0 draws evs) = sched_of m T0 t0 n /\ (0 < n)%nat /\ range (m_tuning m) t0 /\
+    Z.of_nat n <= MAX_RETRANSMIT (m_tuning m) + 1 /\
+    ( (exists e, In e (active_exchanges (final_of mid0 draws evs)) /\ h_message (e_timer e) = m /\
+                 h_due (e_timer e) = T0 + t0 * (2 ^ Z.of_nat n - 1) /\ now (final_of mid0 draws evs) <= h_due (e_timer e)) \/
+      (Z.of_nat n = MAX_RETRANSMIT (m_tuning m) + 1 /\
+       In (OFail (T0 + t0 * (2 ^ (MAX_RETRANSMIT (m_tuning m) + 1) - 1)) (m_rid m) ConRetransmitsExceeded) (trace_of mid0 draws evs)) ) /\
+    forall tf, ~ In (OFail tf (m_rid m) NetworkError) (trace_of mid0 draws evs).
+Proof. exact gives_up_plain_remote. Qed.
+Print Assumptions C03_gives_up_plain_remote.
+(* 3a'' (round 6). "The only failure of the request": over every well-formed run -- refusing transports, transport errors, RST, give-up and
+   the collateral failures of a remote's other requests included -- the trace contains at most one failure output per request id
+   ([fails rid tr] counts the OFail outputs of rid). With C03_gives_up(_plain): if the request failed at the deadline with
+   ConRetransmitsExceeded, that is its only failure *)
+Theorem C03_request_fails_at_most_once : forall mid0 draws evs rid, wf_run draws evs -> (fails rid (trace_of mid0 draws evs) <= 1)%nat.
+Proof. exact request_fails_at_most_once. Qed.
+Print Assumptions C03_request_fails_at_most_once.
+Example C03_fails_counts : fails 1 [OFail 5 1 MessageError; OSend 0 {| m_remote := 0; m_mid := 0; m_rid := 1; m_tuning := dflt0 |}; OFail 7 1 NetworkError; OFail 7 2 NetworkError] = 2%nat.
+Proof. reflexivity. Qed.
 (* 3b (audit gap 8) "instead of hanging": once no exchange is left in the message layer, the request has failed (at the deadline, after
    all 1+R copies, or through a refusal); and firing the pending timer of an exchange with retransmissions left re-arms exactly that
    exchange with counter + 1 and doubled timeout, so R+1 firings reach the give-up *)
